@@ -13,6 +13,19 @@
 //!     `t_bilin` (e(aP,bQ) = e(P,Q)^(ab)), `t_addl` / `t_addr` (additivity), `t_nondeg`, `t_idl` / `t_idr`
 //!     (identity), `t_multi` (multi = product of singles), `t_prep` (prepared = unprepared),
 //!     `t_femul` (final exponentiation multiplicative), `t_fepow` (final exponentiation is the power map).
+//!   * the whole public API of `ec/src/pairing.rs` (section `api`, emitted first for every instance):
+//!     conformance ops `mlomul` (`MillerLoopOutput * scalar`), `outzero` (`zero` / `ZERO` / `default`), `outiszero`,
+//!     `outzeroize`, `outdisplay`, `outaddv` / `outsubv` / `outdblv` / `outmulv` (every by-value / by-reference /
+//!     assigning form on one line, `;`-separated), `outsum` (owned; by reference), `outmulbig` (`mul_bigint` with raw
+//!     limbs), `outmulbits` (`mul_bits_be`), `valid` (`Valid::check`, `batch_check` of the singleton, the four
+//!     `deserialize_*` entry points on the serialized bytes, `Option<_>`, sizes, bytes), `vbatch`
+//!     (`batch_check`, `Vec::check`, `Vec<_>` / `[_; 2]` deserialization), `deserb` (deserialization of hand-made
+//!     byte strings: kind one / vec / arr2 / opt, mode = compress c/u + validate y/n);
+//!     tests `t_mlofe` (FE(ML * s) = FE(ML)^s), `t_outrand` (`Distribution<PairingOutput>`), `t_outmsm`
+//!     (`VariableBaseMSM for PairingOutput`), and `t_prep` lines for `miller_loop`, `PairingOutput::generator()`,
+//!     `prepare_g1` / `prepare_g2`.  Inputs include elements outside GT (`PairingOutput`'s field is public):
+//!     arbitrary field elements, 0, -1, subfield elements, elements of small prime order per subfield level
+//!     (`small_order_elements`), their products with members of GT, the cyclotomic subgroup outside GT.
 //! A panic of the real code is printed as `panic`.
 #![allow(clippy::type_complexity)]
 
@@ -25,9 +38,12 @@ use ark_ec::{
         mnt6::{self, MNT6Config, MNT6},
         short_weierstrass::SWCurveConfig,
     },
-    pairing::{MillerLoopOutput, Pairing, PairingOutput},
-    AdditiveGroup, AffineRepr, CurveGroup, PrimeGroup,
+    pairing::{prepare_g1, prepare_g2, MillerLoopOutput, Pairing, PairingOutput},
+    AdditiveGroup, AffineRepr, CurveGroup, PrimeGroup, VariableBaseMSM,
 };
+use ark_serialize::{CanonicalDeserialize, CanonicalSerialize, Compress, SerializationError, Valid, Validate};
+use ark_std::{rand::SeedableRng, UniformRand};
+use num_bigint::BigUint;
 use ark_ff::{
     fields::{
         fp12_2over3over2::Fp12Config, fp2::Fp2Config, fp3::Fp3Config, fp4::Fp4Config,
@@ -515,6 +531,565 @@ fn pts2<E: Pairing>(qs: &[A2<E>]) -> String {
     semi(qs.iter().map(|q| pt2::<E>(q)).collect())
 }
 
+// ------------------------------------------------------------------------------------------------
+// the whole public API of `ec/src/pairing.rs` (`MillerLoopOutput`, `PairingOutput`: group structure, `Valid`,
+// (de)serialization, `Display` / `Default` / `Zeroize` / `rand`, `VariableBaseMSM`, `prepare_g1` / `prepare_g2`)
+// ------------------------------------------------------------------------------------------------
+type PO<E> = PairingOutput<E>;
+
+fn hexbytes(b: &[u8]) -> String {
+    if b.is_empty() {
+        return "_".into();
+    }
+    b.iter().map(|x| format!("{:02x}", x)).collect()
+}
+fn errk(e: &SerializationError) -> &'static str {
+    match e {
+        SerializationError::NotEnoughSpace => "space",
+        SerializationError::InvalidData => "invalid",
+        SerializationError::UnexpectedFlags => "flags",
+        SerializationError::IoError(_) => "io",
+    }
+}
+/// `1` = accepted and equal to the value that was serialized, `x` = accepted but different, `0` = InvalidData
+fn de_tok<T: PartialEq>(r: Result<T, SerializationError>, want: &T) -> String {
+    match r {
+        Ok(w) => if &w == want { "1".into() } else { "x".into() },
+        Err(SerializationError::InvalidData) => "0".into(),
+        Err(e) => format!("e:{}", errk(&e)),
+    }
+}
+fn zeroized<G: AdditiveGroup>(mut g: G) -> G {
+    // `Zeroize` is a supertrait of `AdditiveGroup`
+    g.zeroize();
+    g
+}
+fn biguint_of<B: BigInteger>(b: &B) -> BigUint {
+    BigUint::from_bytes_le(&b.to_bytes_le())
+}
+fn tf_of<E: Pairing>(cs: Vec<<Tf<E> as Field>::BasePrimeField>) -> Tf<E> {
+    Tf::<E>::from_base_prime_field_elems(cs).unwrap()
+}
+fn rand_bpf<E: Pairing>(rng: &mut Rng) -> <Tf<E> as Field>::BasePrimeField {
+    let n = (<E::BaseField as PrimeField>::MODULUS_BIT_SIZE as usize + 7) / 8 + 8;
+    let bytes: Vec<u8> = (0..n).map(|_| rng.next() as u8).collect();
+    <Tf<E> as Field>::BasePrimeField::from_le_bytes_mod_order(&bytes)
+}
+
+/// elements of small prime order: for every proper-or-not subfield level `j | k` the smallest odd prime `d < 200`
+/// whose `d`-th roots of unity first appear in `F_{q^j}`; `ζ = y^((q^k-1)/d)` for random `y` (retry until `ζ ≠ 1`).
+/// Returns `(d, j, ζ)`, sorted by `j`.
+fn small_order_elements<E: Pairing>(rng: &mut Rng) -> Vec<(u64, u32, Tf<E>)> {
+    let q = biguint_of(&<E::BaseField as PrimeField>::MODULUS);
+    let r = biguint_of(&Fr::<E>::MODULUS);
+    let k = Tf::<E>::extension_degree() as u32;
+    let one = BigUint::from(1u32);
+    let n = q.pow(k) - &one;
+    assert!((&n % &r) == BigUint::from(0u32), "r does not divide q^k - 1");
+    let mut out: Vec<(u64, u32, Tf<E>)> = Vec::new();
+    let mut d = 3u64;
+    while d < 200 {
+        let is_prime = (2..d).take_while(|i| i * i <= d).all(|i| d % i != 0);
+        let dd = BigUint::from(d);
+        if is_prime && (&n % &dd) == BigUint::from(0u32) && dd != r {
+            let j = (1..=k).find(|j| k % j == 0 && ((q.pow(*j) - &one) % &dd) == BigUint::from(0u32)).unwrap();
+            if !out.iter().any(|(_, jj, _)| *jj == j) {
+                let e = (&n / &dd).to_u64_digits();
+                let z = loop {
+                    let z = rand_tf::<E>(rng).pow(&e);
+                    if !z.is_one() && !z.is_zero() {
+                        break z;
+                    }
+                };
+                // start-up assertions: order exactly d (d prime), member of F_{q^j}, not a member of GT
+                assert!(z.pow([d]).is_one());
+                assert!(z.pow((q.pow(j) - &one).to_u64_digits()).is_one());
+                assert!(!z.pow(Fr::<E>::MODULUS).is_one());
+                out.push((d, j, z));
+            }
+        }
+        d += 2;
+    }
+    out.sort_by_key(|t| t.1);
+    out
+}
+
+/// a member of the cyclotomic subgroup `G_{Φ_k(q)}` that is (with overwhelming probability) outside GT
+fn cyclotomic_non_gt<E: Pairing>(rng: &mut Rng) -> Tf<E> {
+    let q = biguint_of(&<E::BaseField as PrimeField>::MODULUS);
+    let k = Tf::<E>::extension_degree() as u32;
+    let one = BigUint::from(1u32);
+    let phi = match k {
+        12 => q.pow(4) - q.pow(2) + &one,
+        6 => q.pow(2) - &q + &one,
+        4 => q.pow(2) + &one,
+        _ => panic!("unexpected embedding degree"),
+    };
+    let n = q.pow(k) - &one;
+    assert!((&n % &phi) == BigUint::from(0u32));
+    let e = (&n / &phi).to_u64_digits();
+    loop {
+        let c = rand_tf::<E>(rng).pow(&e);
+        if !c.is_zero() && !c.pow(Fr::<E>::MODULUS).is_one() {
+            assert!(c.pow(phi.to_u64_digits()).is_one());
+            return c;
+        }
+    }
+}
+
+fn valid_line<E: Pairing>(o: &mut Out, id: &str, x: &Tf<E>) {
+    let x = *x;
+    let res = guarded(|| {
+        let v = PairingOutput::<E>(x);
+        let t0 = b01(v.check().is_ok());
+        let t1 = b01(PO::<E>::batch_check(std::iter::once(&v)).is_ok());
+        let mut bc = Vec::new();
+        v.serialize_compressed(&mut bc).unwrap();
+        let mut bu = Vec::new();
+        v.serialize_uncompressed(&mut bu).unwrap();
+        let t2 = de_tok(PO::<E>::deserialize_compressed(&bc[..]), &v);
+        let t3 = de_tok(PO::<E>::deserialize_uncompressed(&bu[..]), &v);
+        let t4 = de_tok(PO::<E>::deserialize_compressed_unchecked(&bc[..]), &v);
+        let t5 = de_tok(PO::<E>::deserialize_uncompressed_unchecked(&bu[..]), &v);
+        let mut bo = Vec::new();
+        Some(v).serialize_with_mode(&mut bo, Compress::Yes).unwrap();
+        let t6 = de_tok(Option::<PO<E>>::deserialize_with_mode(&bo[..], Compress::Yes, Validate::Yes), &Some(v));
+        let sizes = format!("{:x}/{:x}/{:x}/{:x}", v.compressed_size(), v.uncompressed_size(), bc.len(), bu.len());
+        let bytes = if bc == bu { hexbytes(&bc) } else { format!("{}!{}", hexbytes(&bc), hexbytes(&bu)) };
+        format!("{},{},{},{},{},{},{},{},{}", t0, t1, t2, t3, t4, t5, t6, sizes, bytes)
+    });
+    o.line(&format!("valid {} {}", id, el(&x)), &res);
+}
+
+fn vbatch_line<E: Pairing>(o: &mut Out, id: &str, xs: &[Tf<E>]) {
+    let v: Vec<PO<E>> = xs.iter().map(|x| PairingOutput(*x)).collect();
+    let res = guarded(|| {
+        let t0 = b01(PO::<E>::batch_check(v.iter()).is_ok());
+        let t1 = b01(v.check().is_ok());
+        let mut bc = Vec::new();
+        v.serialize_compressed(&mut bc).unwrap();
+        let mut bu = Vec::new();
+        v.serialize_uncompressed(&mut bu).unwrap();
+        let t2 = de_tok(Vec::<PO<E>>::deserialize_compressed(&bc[..]), &v);
+        let t3 = de_tok(Vec::<PO<E>>::deserialize_uncompressed(&bu[..]), &v);
+        let t4 = de_tok(Vec::<PO<E>>::deserialize_compressed_unchecked(&bc[..]), &v);
+        let t5 = de_tok(Vec::<PO<E>>::deserialize_uncompressed_unchecked(&bu[..]), &v);
+        let (t6, t7) = if v.len() == 2 {
+            let arr: [PO<E>; 2] = [v[0], v[1]];
+            let mut ab = Vec::new();
+            arr.serialize_compressed(&mut ab).unwrap();
+            (de_tok(<[PO<E>; 2]>::deserialize_compressed(&ab[..]), &arr), b01(arr.check().is_ok()).to_string())
+        } else {
+            ("-".to_string(), "-".to_string())
+        };
+        format!("{},{},{},{},{},{},{},{},{:x}/{:x}", t0, t1, t2, t3, t4, t5, t6, t7, v.compressed_size(), bc.len())
+    });
+    o.line(&format!("vbatch {} {}", id, semi(xs.iter().map(|x| el(x)).collect())), &res);
+}
+
+fn show_de<E: Pairing>(r: Result<Option<Vec<PO<E>>>, SerializationError>) -> String {
+    match r {
+        Err(e) => format!("err:{}", errk(&e)),
+        Ok(None) => "ok:none".into(),
+        Ok(Some(v)) => format!("ok:{}", semi(v.iter().map(|x| el(&x.0)).collect())),
+    }
+}
+/// `kind` ∈ one / vec / arr2 / opt, `mode` = compress (c/u) + validate (y/n)
+fn deserb_line<E: Pairing>(o: &mut Out, id: &str, kind: &str, mode: &str, bytes: &[u8]) {
+    let c = if mode.starts_with('c') { Compress::Yes } else { Compress::No };
+    let v = if mode.ends_with('y') { Validate::Yes } else { Validate::No };
+    let res = guarded(|| match kind {
+        "one" => show_de::<E>(PO::<E>::deserialize_with_mode(bytes, c, v).map(|x| Some(vec![x]))),
+        "vec" => show_de::<E>(Vec::<PO<E>>::deserialize_with_mode(bytes, c, v).map(Some)),
+        "arr2" => show_de::<E>(<[PO<E>; 2]>::deserialize_with_mode(bytes, c, v).map(|a| Some(a.to_vec()))),
+        "opt" => show_de::<E>(Option::<PO<E>>::deserialize_with_mode(bytes, c, v).map(|x| x.map(|x| vec![x]))),
+        _ => unreachable!(),
+    });
+    o.line(&format!("deserb {} {} {} {}", id, kind, mode, hexbytes(bytes)), &res);
+}
+
+struct ApiBudget {
+    /// the reduced set (second instances of a curve that is already covered in full)
+    lite: bool,
+    /// number of extra random rounds (thorough tier)
+    extra: usize,
+}
+
+fn api<Fm: Fam>(o: &mut Out, id: &str, rng: &mut Rng, bud: &ApiBudget) {
+    type E<Fm> = <Fm as Fam>::E;
+    let deg = Tf::<E<Fm>>::extension_degree() as usize;
+    o.line(&format!("cfg {} {}", id, Fm::header()), &format!("{:x}", deg));
+    let lite = bud.lite;
+    let gen1 = G1p::<E<Fm>>::generator().into_affine();
+    let gen2 = G2p::<E<Fm>>::generator().into_affine();
+    let one = Tf::<E<Fm>>::one();
+    let zero = Tf::<E<Fm>>::zero();
+    let rm1 = -Fr::<E<Fm>>::one();
+    let e1 = E::<Fm>::pairing(gen1, gen2).0;
+    let pa = g1::<E<Fm>>(&nz_fr::<E<Fm>>(rng));
+    let qa = g2::<E<Fm>>(&nz_fr::<E<Fm>>(rng));
+    let e2 = E::<Fm>::pairing(pa, qa).0;
+    let x = loop {
+        let x = rand_tf::<E<Fm>>(rng);
+        if !x.is_zero() {
+            break x;
+        }
+    };
+    let xinv = x.inverse().unwrap();
+    let zs = small_order_elements::<E<Fm>>(rng);
+    let cyc = cyclotomic_non_gt::<E<Fm>>(rng);
+    // sub-field elements: the prime field, the half-degree subfield (`c1 = 0`)
+    let two = Tf::<E<Fm>>::from(2u64);
+    let three = Tf::<E<Fm>>::from(3u64);
+    let sixth = Tf::<E<Fm>>::from(6u64).inverse().unwrap();
+    let half = {
+        let mut cs = vec![<Tf<E<Fm>> as Field>::BasePrimeField::zero(); deg];
+        for c in cs.iter_mut().take(deg / 2) {
+            *c = rand_bpf::<E<Fm>>(rng);
+        }
+        tf_of::<E<Fm>>(cs)
+    };
+    // `(1, 0, …, 0, c)`: equal to one in all but the last coordinate
+    let almost_one = {
+        let mut cs = vec![<Tf<E<Fm>> as Field>::BasePrimeField::zero(); deg];
+        cs[0] = <Tf<E<Fm>> as Field>::BasePrimeField::one();
+        cs[deg - 1] = <Tf<E<Fm>> as Field>::BasePrimeField::from(1 + rng.below(1 << 20));
+        tf_of::<E<Fm>>(cs)
+    };
+    let r_limbs: Vec<u64> = Fr::<E<Fm>>::MODULUS.as_ref().to_vec();
+    let nl = r_limbs.len();
+
+    // ---- `MillerLoopOutput * scalar` -------------------------------------------------------------
+    {
+        let ml = E::<Fm>::multi_miller_loop([pa], [qa]).0;
+        // the trait's single-pair default
+        o.line(&format!("t_prep {} {}", id, el(&ml)), &guarded(|| el(&E::<Fm>::miller_loop(pa, qa).0)));
+        let fe_ml = fexp_s::<E<Fm>>(&ml);
+        let rs = rand_fr::<E<Fm>>(rng);
+        let mut cases: Vec<(Tf<E<Fm>>, Fr<E<Fm>>)> = vec![
+            (ml, Fr::<E<Fm>>::zero()), (ml, Fr::<E<Fm>>::one()), (ml, Fr::<E<Fm>>::from(2u64)), (ml, Fr::<E<Fm>>::from(3u64)),
+            (ml, rs), (x, Fr::<E<Fm>>::from(2u64)), (x, Fr::<E<Fm>>::from(3u64)), (x, Fr::<E<Fm>>::from(7u64)),
+            (zero, Fr::<E<Fm>>::zero()), (zero, Fr::<E<Fm>>::from(2u64)),
+        ];
+        if !lite {
+            cases.push((ml, rm1));
+            cases.push((x, rand_fr::<E<Fm>>(rng)));
+            cases.push((x, Fr::<E<Fm>>::zero()));
+            cases.push((x, Fr::<E<Fm>>::one()));
+        }
+        for _ in 0..bud.extra {
+            cases.push((rand_tf::<E<Fm>>(rng), any_fr::<E<Fm>>(rng)));
+        }
+        for (f, s) in &cases {
+            let (f, s) = (*f, *s);
+            o.line(&format!("mlomul {} {} {}", id, el(&f), fe(&s)), &guarded(|| el(&(MillerLoopOutput::<E<Fm>>(f) * s).0)));
+        }
+        let mut ss = vec![Fr::<E<Fm>>::zero(), Fr::<E<Fm>>::one(), Fr::<E<Fm>>::from(2u64), small_fr::<E<Fm>>(rng), rs];
+        if !lite {
+            ss.push(rm1);
+        }
+        for s in ss {
+            o.line(
+                &format!("t_mlofe {} {} {}", id, fe_ml, fe(&s)),
+                &guarded(|| match E::<Fm>::final_exponentiation(MillerLoopOutput::<E<Fm>>(ml) * s) {
+                    Some(r) => el(&r.0),
+                    None => "none".into(),
+                }),
+            );
+        }
+    }
+
+    // ---- `zero` / `ZERO` / `default` / `is_zero` / `generator` / `Display` / `Zeroize` / `rand` ----------------
+    {
+        o.line(&format!("outzero {} zero", id), &guarded(|| el(&PO::<E<Fm>>::zero().0)));
+        o.line(&format!("outzero {} const", id), &guarded(|| el(&<PO<E<Fm>> as AdditiveGroup>::ZERO.0)));
+        o.line(&format!("outzero {} default", id), &guarded(|| el(&PO::<E<Fm>>::default().0)));
+        for v in [one, zero, e1, e2, x, almost_one, two, -one] {
+            o.line(&format!("outiszero {} {}", id, el(&v)), &guarded(|| b01(PairingOutput::<E<Fm>>(v).is_zero()).to_string()));
+        }
+        o.line(&format!("t_prep {} {}", id, el(&e1)), &guarded(|| el(&PO::<E<Fm>>::generator().0)));
+        o.line(
+            &format!("t_prep {} {}", id, el(&e2)),
+            &guarded(|| el(&E::<Fm>::pairing(prepare_g1::<E<Fm>>(pa), prepare_g2::<E<Fm>>(qa)).0)),
+        );
+        for v in [one, e1, x] {
+            o.line(&format!("outdisplay {} {}", id, el(&v)), &guarded(|| format!("{}", PairingOutput::<E<Fm>>(v))));
+            o.line(&format!("outzeroize {} {}", id, el(&v)), &guarded(|| el(&zeroized(PairingOutput::<E<Fm>>(v)).0)));
+        }
+        for _ in 0..(1 + bud.extra) {
+            let mut srng = ark_std::rand::rngs::StdRng::seed_from_u64(rng.next());
+            o.line(&format!("t_outrand {}", id), &guarded(|| el(&PO::<E<Fm>>::rand(&mut srng).0)));
+        }
+    }
+
+    // ---- group operations in all their forms ---------------------------------------------------------
+    {
+        let mut pairs: Vec<(Tf<E<Fm>>, Tf<E<Fm>>)> = vec![(e1, e2), (e2, e2), (one, e1), (e2, one), (x, e1), (e1, x), (x, zero), (zero, zero)];
+        if !lite {
+            pairs.push((x, almost_one));
+        }
+        for _ in 0..bud.extra {
+            let t = E::<Fm>::pairing(g1::<E<Fm>>(&any_fr::<E<Fm>>(rng)), g2::<E<Fm>>(&any_fr::<E<Fm>>(rng))).0;
+            pairs.push((t, e2));
+            pairs.push((e1, t));
+        }
+        for (a, b) in &pairs {
+            let (a, b) = (PairingOutput::<E<Fm>>(*a), PairingOutput::<E<Fm>>(*b));
+            let out = |v: PO<E<Fm>>| el(&v.0);
+            o.line(
+                &format!("outaddv {} {} {}", id, el(&a.0), el(&b.0)),
+                &guarded(|| {
+                    let mut bm = b;
+                    let mut r6 = a; r6 += b;
+                    let mut r7 = a; r7 += &b;
+                    let mut r8 = a; r8 += &mut bm;
+                    let mut bm2 = b;
+                    let mut bm3 = b;
+                    semi(vec![out(a + b), out(a + &b), out(&a + b), out(&a + &b), out(a + &mut bm2), out(&a + &mut bm3), out(r6), out(r7), out(r8)])
+                }),
+            );
+            o.line(
+                &format!("outsubv {} {} {}", id, el(&a.0), el(&b.0)),
+                &guarded(|| {
+                    let mut bm = b;
+                    let mut r6 = a; r6 -= b;
+                    let mut r7 = a; r7 -= &b;
+                    let mut r8 = a; r8 -= &mut bm;
+                    let mut bm2 = b;
+                    let mut bm3 = b;
+                    semi(vec![out(a - b), out(a - &b), out(&a - b), out(&a - &b), out(a - &mut bm2), out(&a - &mut bm3), out(r6), out(r7), out(r8)])
+                }),
+            );
+        }
+        for v in [e1, one, x, zero, cyc] {
+            let a = PairingOutput::<E<Fm>>(v);
+            o.line(&format!("outneg {} {}", id, el(&v)), &guarded(|| el(&(-a).0)));
+            o.line(
+                &format!("outdblv {} {}", id, el(&v)),
+                &guarded(|| {
+                    let mut t = a;
+                    t.double_in_place();
+                    semi(vec![el(&a.double().0), el(&t.0)])
+                }),
+            );
+        }
+        // Sum (owned and by reference): empty, singleton, several
+        let mut lists: Vec<Vec<Tf<E<Fm>>>> = vec![vec![], vec![e1], vec![e1, e2], vec![e1, e2, e1, one, e2], vec![x, xinv, e2]];
+        for _ in 0..bud.extra {
+            let n = 1 + rng.below(6) as usize;
+            lists.push((0..n).map(|_| if rng.below(4) == 0 { rand_tf::<E<Fm>>(rng) } else { (PairingOutput::<E<Fm>>(e2) * any_fr::<E<Fm>>(rng)).0 }).collect());
+        }
+        for l in &lists {
+            let v: Vec<PO<E<Fm>>> = l.iter().map(|t| PairingOutput(*t)).collect();
+            o.line(
+                &format!("outsum {} {}", id, semi(l.iter().map(|t| el(t)).collect())),
+                &guarded(|| {
+                    let s1: PO<E<Fm>> = v.iter().copied().sum();
+                    let s2: PO<E<Fm>> = v.iter().sum();
+                    semi(vec![el(&s1.0), el(&s2.0)])
+                }),
+            );
+        }
+    }
+
+    // ---- scalar multiplication: `Mul` / `MulAssign` in all forms, `mul_bigint` with raw limbs, `mul_bits_be`, MSM ----
+    {
+        let mut cases: Vec<(Tf<E<Fm>>, Fr<E<Fm>>)> = vec![(e2, rand_fr::<E<Fm>>(rng)), (e1, Fr::<E<Fm>>::from(3u64)), (x, Fr::<E<Fm>>::from(3u64)), (one, rm1)];
+        for _ in 0..bud.extra {
+            cases.push(((PairingOutput::<E<Fm>>(e1) * any_fr::<E<Fm>>(rng)).0, any_fr::<E<Fm>>(rng)));
+        }
+        for (a, s) in &cases {
+            let (a, s) = (PairingOutput::<E<Fm>>(*a), *s);
+            o.line(
+                &format!("outmulv {} {} {}", id, el(&a.0), fe(&s)),
+                &guarded(|| {
+                    let mut sm = s;
+                    let mut r3 = a; r3 *= s;
+                    let mut r4 = a; r4 *= &s;
+                    let mut sm2 = s;
+                    let mut r5 = a; r5 *= &mut sm2;
+                    let r6 = a.mul_bigint(s.into_bigint());
+                    semi(vec![el(&(a * s).0), el(&(a * &s).0), el(&(a * &mut sm).0), el(&r3.0), el(&r4.0), el(&r5.0), el(&r6.0)])
+                }),
+            );
+        }
+        // raw limbs
+        let mut rp1 = r_limbs.clone();
+        rp1[0] += 1; // r is odd and its low limb is not u64::MAX for any shipped curve
+        assert!(r_limbs[0] != u64::MAX);
+        let mut longer = r_limbs.clone();
+        longer.push(1);
+        let mut lead0 = vec![5u64];
+        lead0.extend(std::iter::repeat(0).take(nl + 2));
+        let mut limbs_g: Vec<Vec<u64>> = vec![
+            vec![], vec![0], vec![0, 0, 0], vec![1], vec![2], vec![0, 1], lead0, vec![u64::MAX], vec![1u64 << 63],
+            vec![u64::MAX, u64::MAX], rp1.clone(),
+        ];
+        if !lite {
+            limbs_g.push(r_limbs.clone());
+            limbs_g.push(longer);
+        }
+        for _ in 0..bud.extra {
+            let n = rng.below(nl as u64 + 3) as usize;
+            limbs_g.push((0..n).map(|_| if rng.below(4) == 0 { 0 } else { rng.next() }).collect());
+        }
+        for l in &limbs_g {
+            let l = l.clone();
+            o.line(&format!("outmulbig {} {} {}", id, el(&e1), hex_list_u64(&l)), &guarded(|| el(&PairingOutput::<E<Fm>>(e1).mul_bigint(&l).0)));
+        }
+        // outside GT: arbitrary field elements (not even cyclotomic), zero, the cyclotomic subgroup outside GT
+        let mut outs: Vec<(Tf<E<Fm>>, Vec<u64>)> = vec![
+            (x, vec![]), (x, vec![0]), (x, vec![1]), (x, vec![2]), (x, vec![3]), (zero, vec![0]), (zero, vec![5]),
+            (cyc, vec![3]), (cyc, vec![7, 1]),
+        ];
+        if !lite {
+            outs.push((x, r_limbs.clone()));
+            outs.push((cyc, rand_fr::<E<Fm>>(rng).into_bigint().as_ref().to_vec()));
+        }
+        for (a, l) in &outs {
+            let (a, l) = (*a, l.clone());
+            o.line(&format!("outmulbig {} {} {}", id, el(&a), hex_list_u64(&l)), &guarded(|| el(&PairingOutput::<E<Fm>>(a).mul_bigint(&l).0)));
+        }
+        // `mul_bits_be`: the iterator's first bit is the most significant one
+        let mut bitss: Vec<String> = vec!["_".into(), "1".into(), "0".into(), "11".into(), "10".into(), format!("1{}", "0".repeat(64))];
+        if !lite {
+            bitss.push("0001".into());
+            bitss.push("1011".into());
+        }
+        for _ in 0..bud.extra {
+            let n = 1 + rng.below(70) as usize;
+            bitss.push((0..n).map(|_| if rng.below(2) == 0 { '0' } else { '1' }).collect());
+        }
+        for b in &bitss {
+            let bits: Vec<bool> = if b == "_" { vec![] } else { b.chars().map(|c| c == '1').collect() };
+            o.line(&format!("outmulbits {} {} {}", id, el(&e1), b), &guarded(|| el(&PairingOutput::<E<Fm>>(e1).mul_bits_be(bits.into_iter()).0)));
+        }
+        // MSM over the target group
+        {
+            let bases = vec![PairingOutput::<E<Fm>>(e1), PairingOutput::<E<Fm>>(e2), PairingOutput::<E<Fm>>(e1)];
+            let scalars = vec![small_fr::<E<Fm>>(rng), rand_fr::<E<Fm>>(rng), Fr::<E<Fm>>::from(2u64)];
+            o.line(
+                &format!("t_outmsm {} {} {}", id, semi(bases.iter().map(|b| el(&b.0)).collect()), scalars.iter().map(|s| fe(s)).collect::<Vec<_>>().join(",")),
+                &guarded(|| match <PO<E<Fm>> as VariableBaseMSM>::msm(&bases, &scalars) {
+                    Ok(r) => el(&r.0),
+                    Err(n) => format!("err:{}", n),
+                }),
+            );
+        }
+    }
+
+    // ---- `Valid::check` / `batch_check`, directly and through checked deserialization ------------------------------
+    {
+        let g_z = |z: &Tf<E<Fm>>| *z * e2;
+        let mut vals: Vec<Tf<E<Fm>>> = vec![e1, x];
+        if let Some((_, _, z)) = zs.first() {
+            vals.push(g_z(z));
+        }
+        if !lite {
+            vals.extend([one, zero, -one, two, half, cyc]);
+            if let Some((_, _, z)) = zs.first() {
+                vals.push(*z);
+            }
+            for (_, _, z) in zs.iter().skip(1) {
+                vals.push(*z);
+                vals.push(g_z(z));
+            }
+        } else {
+            // every subfield level at least once, alternating bare / times a member of GT
+            for (i, (_, _, z)) in zs.iter().enumerate().skip(1) {
+                vals.push(if i % 2 == 1 { *z } else { g_z(z) });
+            }
+        }
+        for _ in 0..bud.extra {
+            vals.push(rand_tf::<E<Fm>>(rng));
+            vals.push((PairingOutput::<E<Fm>>(e2) * any_fr::<E<Fm>>(rng)).0);
+            if !zs.is_empty() {
+                let (_, _, z) = zs[rng.below(zs.len() as u64) as usize];
+                vals.push(z.pow([1 + rng.below(5)]) * (PairingOutput::<E<Fm>>(e1) * any_fr::<E<Fm>>(rng)).0);
+            }
+        }
+        for v in &vals {
+            valid_line::<E<Fm>>(o, id, v);
+        }
+        // batches whose product lies in GT while the members do not
+        let mut batches: Vec<Vec<Tf<E<Fm>>>> = vec![vec![x, xinv], vec![e1, e2]];
+        if !lite {
+            batches.push(vec![]);
+            batches.push(vec![-one, -one]);
+            batches.push(vec![two, three, sixth]);
+            batches.push(vec![cyc, cyc.inverse().unwrap()]);
+            batches.push(vec![e1, x]);
+            if let Some((_, _, z)) = zs.first() {
+                batches.push(vec![g_z(z), z.inverse().unwrap()]);
+            }
+        } else if let Some((_, _, z)) = zs.last() {
+            batches.push(vec![g_z(z), z.inverse().unwrap()]);
+        }
+        for _ in 0..bud.extra {
+            let y = rand_tf::<E<Fm>>(rng);
+            if y.is_zero() {
+                continue;
+            }
+            let g = (PairingOutput::<E<Fm>>(e2) * any_fr::<E<Fm>>(rng)).0;
+            batches.push(vec![g, y, g * y.inverse().unwrap()]);
+            batches.push(vec![g, g * g, e1]);
+        }
+        for b in &batches {
+            vbatch_line::<E<Fm>>(o, id, b);
+        }
+    }
+
+    // ---- deserialization of byte strings that no serializer produced ---------------------------------
+    {
+        let ser = |v: &Tf<E<Fm>>| {
+            let mut b = Vec::new();
+            PairingOutput::<E<Fm>>(*v).serialize_compressed(&mut b).unwrap();
+            b
+        };
+        let (b1, b2, bx) = (ser(&e1), ser(&e2), ser(&x));
+        let n = b1.len() / deg;
+        let cat = |parts: &[&[u8]]| parts.concat();
+        let len = |k: u64| k.to_le_bytes().to_vec();
+        // the modulus in the last coordinate / all-ones in the first
+        let mut b_mod = b1.clone();
+        let mb = <E<Fm> as Pairing>::BaseField::MODULUS.to_bytes_le();
+        b_mod[(deg - 1) * n..].copy_from_slice(&mb[..n]);
+        let mut b_ff = b1.clone();
+        for t in b_ff.iter_mut().take(n) {
+            *t = 0xff;
+        }
+        let mut cases: Vec<(&str, &str, Vec<u8>)> = vec![
+            ("one", "cn", b1[..b1.len() - 1].to_vec()),
+            ("one", "un", cat(&[&bx, &[0xab]])),
+            ("one", "cy", b_mod.clone()),
+            ("one", "un", b_mod.clone()),
+            ("one", "uy", b_ff.clone()),
+            ("one", "cy", vec![]),
+            ("vec", "cn", cat(&[&len(2), &b1, &bx])),
+            ("vec", "cy", cat(&[&len(1), &bx, &b1])),
+            ("vec", "un", cat(&[&len(3), &b1, &b2])),
+            ("vec", "cy", cat(&[&len(0), &b1])),
+            ("vec", "cy", len(0)[..7].to_vec()),
+            ("vec", "cn", cat(&[&len(1u64 << 63), &b1])),
+            ("arr2", "cn", cat(&[&bx, &b2])),
+            ("arr2", "cy", cat(&[&bx, &b2])),
+            ("arr2", "un", cat(&[&b1, &b2[..b2.len() - 1]])),
+            ("opt", "cy", vec![0]),
+            ("opt", "cy", vec![]),
+            ("opt", "cn", cat(&[&[1], &bx])),
+            ("opt", "uy", cat(&[&[1], &bx])),
+            ("opt", "cn", cat(&[&[2], &b1])),
+            ("opt", "cn", vec![1]),
+        ];
+        if !lite {
+            cases.push(("one", "cy", cat(&[&b1, &[0xab]])));
+        }
+        for (kind, mode, bytes) in &cases {
+            deserb_line::<E<Fm>>(o, id, kind, mode, bytes);
+        }
+    }
+}
+
 struct Budget {
     /// scalars of the deterministic grid (conformance `pairing` lines on all ordered pairs)
     grid: Vec<i64>,
@@ -874,6 +1449,46 @@ fn main() {
     let tiny_nofe = Budget { fepow: if thorough { 1 } else { 0 }, ..Budget { grid: vec![1, 0], conf_pairings: m, conf_multi: vec![5], test_rounds: 1, small: 2, fepow: 0, bilin_groups: 0, g2prep_extra: 0 } };
     let mid_nofe = Budget { fepow: if thorough { 2 } else { 0 }, grid: mid.grid.clone(), conf_multi: mid.conf_multi.clone(), ..mid };
     let want = |id: &str| only.as_deref().map_or(true, |x| x == id);
+    // first pass: the public API of `ec/src/pairing.rs` for every instance (cheap; first, so that a time-boxed
+    // thorough run reaches it for every family)
+    {
+        let ex = if thorough { 4 } else { 0 };
+        let full = ApiBudget { lite: false, extra: ex };
+        let lite = ApiBudget { lite: true, extra: ex };
+        if want("tc_bls381") {
+            api::<BlsFam<ark_test_curves::bls12_381::Config>>(&mut o, "tc_bls381", &mut rng, &lite);
+        }
+        if want("bw6_761g") {
+            api::<Bw6Fam<Bw6_761Generic, 0>>(&mut o, "bw6_761g", &mut rng, &lite);
+        }
+        if want("bls381") {
+            api::<BlsFam<ark_bls12_381::Config>>(&mut o, "bls381", &mut rng, &full);
+        }
+        if want("bls377") {
+            api::<BlsFam<ark_bls12_377::Config>>(&mut o, "bls377", &mut rng, &lite);
+        }
+        if want("bn254") {
+            api::<BnFam<ark_bn254::Config>>(&mut o, "bn254", &mut rng, &full);
+        }
+        if want("mnt4_298") {
+            api::<Mnt4Fam<ark_mnt4_298::Config>>(&mut o, "mnt4_298", &mut rng, &full);
+        }
+        if want("mnt6_298") {
+            api::<Mnt6Fam<ark_mnt6_298::Config>>(&mut o, "mnt6_298", &mut rng, &full);
+        }
+        if want("bw6_761") {
+            api::<Bw6Fam<ark_bw6_761::Config, 1>>(&mut o, "bw6_761", &mut rng, &full);
+        }
+        if want("bw6_767") {
+            api::<Bw6Fam<ark_bw6_767::Config, 0>>(&mut o, "bw6_767", &mut rng, &full);
+        }
+        if want("mnt4_753") {
+            api::<Mnt4Fam<ark_mnt4_753::Config>>(&mut o, "mnt4_753", &mut rng, &lite);
+        }
+        if want("mnt6_753") {
+            api::<Mnt6Fam<ark_mnt6_753::Config>>(&mut o, "mnt6_753", &mut rng, &lite);
+        }
+    }
     if want("tc_bls381") {
         run::<BlsFam<ark_test_curves::bls12_381::Config>>(&mut o, "tc_bls381", &mut rng, &tiny_nofe);
     }
